@@ -47,6 +47,18 @@ TEXT = {
             'All 24 variable trees x 1-3 times x cell assignments over falsy/truthy/quantity values (all, or all with <= 2 deviating cells) x all query sets are emitted through RAMEmitter and read back through every accessor; columns, cells and query results are compared with the rows that were emitted.',
             'Every variable exists at every time; quantity columns keyed (name, unit string).',
             'bounded exhaustive input enumeration with a round-trip oracle'),
+    'C08': ('exploration', '3/C08',
+            'Every registered updater (and a user function, and per-update _updater overrides) over small value/update domains, node depths, sibling counts and batches of 1-3 updates is applied through Store.apply_update and through Engine.update with scripted probes, and compared with reference updaters; also checks the frame (other variables untouched), that the update handed in is not modified, and declared units.',
+            'Non-commuting batches may be applied in any order; unit magnitudes to 1e-12; dict-valued leaf updates through two ports of one process excluded.',
+            'bounded exhaustive input enumeration against reference updaters, two routes (store / engine)'),
+    'C11': ('exploration', '3/C11',
+            'Every divider x mother value x EVERY random outcome (both coin sides, every binomial k, by replacing the random sources) x overrides x copied/explicit processes x depth x 1-3 generations is divided in a real Engine (division issued by a step); daughters are compared with reference dividers (conservation, partition), and one daughter is then updated to diff the other one and the outside.',
+            'random.choice / numpy.random.binomial replaced by enumerating choosers; K4 (set divider shares mutable objects) is a known finding.',
+            'bounded exhaustive input enumeration incl. all random outcomes, before/after differential for independence'),
+    'C19': ('exploration', '3/C19',
+            'All event lists up to length 3/4 in every order with duplicate times, plus all time sequences of length 4/5, x 4 timeline timesteps are run in a real Engine with the real TimelineProcess (also via add_timeline) and compared with the first-tick-reached reference trajectory.',
+            'Timesteps divide the run length; several events on one variable in one tick apply in (time, listing) order.',
+            'exhaustive enumeration of event lists against a reference trajectory'),
 }
 
 LEVEL_TEXT = {}
